@@ -5,6 +5,7 @@ CONSTANTS
   Shapes <- ShapesA
   Types = {"i8", "u16", "f32", "f64", "uc8"}
   RasDims <- RDimsNone
+  ScaleSets <- ScalesNo
   MaxObjs = 6
   MaxOps = 5
   Mix = FALSE
